@@ -5,6 +5,7 @@ the monitors on the implementation's dumped states and prints one verdict block 
 import RSSched.Driver.Net
 import RSSched.Driver.Tour
 import RSSched.Driver.Pipe
+import RSSched.Driver.Trans
 open RSSched RSSched.Driver
 
 def processCase (text : String) : Array String :=
@@ -14,6 +15,7 @@ def processCase (text : String) : Array String :=
     | "net" => checkNet c
     | "tour" => checkTour c
     | "pipe" => checkPipe c
+    | "trans" => checkTrans c
     | s => vnote s!"unknown scope {s}"
   let (_, v) := act.run {}
   let status := if v.fails > 0 then "fail" else if v.diffs > 0 then "diff" else "ok"
